@@ -63,15 +63,19 @@ static T4 t4_of(const KM& k) {
 static KM km_of(const T4& t) { KM k = fsr::km_zero(ns, ns); for (int p = 0; p < ns; ++p) for (int q = 0; q < ns; ++q) k.a[p][q] = st2tost2_comp(t, p, q); return k; }
 
 // ---- case generation ------------------------------------------------------------------------------------------
-enum { ST_GENERIC, ST_MODERATE, ST_EQ2_AXES, ST_EQ3_AXES, ST_EQ2_ROT, ST_EQ3_ROT, ST_NEAR0 };
+// equal*-rotated: stretches <= 1.5, so that the rounding noise of the eigenvalues of C (a few ulps of 2.25) stays below the
+// handler's eps = 1e-14 and the pair is merged; equal*-rotated-large: stretches in [2.5,5], where that noise is of the
+// order of eps (the pair may or may not be merged, and when it is not the divided differences are taken between noise)
+enum { ST_GENERIC, ST_MODERATE, ST_EQ2_AXES, ST_EQ3_AXES, ST_EQ2_ROT, ST_EQ3_ROT, ST_EQ2_ROT_LARGE, ST_EQ3_ROT_LARGE, ST_NEAR0 };
 static const char* const STRATA[] = {"generic", "moderate", "equal2-axes", "equal3-axes", "equal2-rotated", "equal3-rotated",
-                                     "near:gapC~1e-2", "near:gapC~1e-4", "near:gapC~1e-6", "near:gapC~1e-8", "near:gapC~1e-10",
-                                     "near:gapC~1e-12", "near:gapC~1e-13.5", "near:gapC<1e-14", "near3"};
+                                     "equal2-rotated-large", "equal3-rotated-large",
+                                     "near:gapC=1e-3..1e-1", "near:gapC=1e-5..1e-3", "near:gapC=1e-7..1e-5", "near:gapC=1e-9..1e-7",
+                                     "near:gapC=1e-11..1e-9", "near:gapC=1e-13..1e-11", "near:gapC=1e-14..1e-13", "near:gapC<5e-15(merged)", "near3"};
 static constexpr int NNEAR = 8;
 static constexpr int NSTRATA = ST_NEAR0 + NNEAR + 1;
 // bounds of the decimal exponent of the gap between two eigenvalues of C in the "near" strata
-static const double NEAR_LO[NNEAR] = {-3, -5, -7, -9, -11, -13, -14, -16.5};
-static const double NEAR_HI[NNEAR] = {-1, -3, -5, -7, -9, -11, -13, -14};
+static const double NEAR_LO[NNEAR] = {-3, -5, -7, -9, -11, -13, -14, -17};
+static const double NEAR_HI[NNEAR] = {-1, -3, -5, -7, -9, -11, -13, -14.3};
 
 static void gen_stretches(vf::Rng& g, L lo, L hi, L mingap, L* a) {
   for (int tries = 0; tries < 1000; ++tries) {
@@ -91,10 +95,15 @@ static M3 gen_F(vf::Rng& g, int st) {
   switch (st) {
     case ST_GENERIC: gen_stretches(g, 0.2L, 5, 0.02L, a); break;
     case ST_MODERATE: gen_stretches(g, 0.5L, 2, 0.02L, a); break;
-    case ST_EQ2_AXES: case ST_EQ2_ROT: gen_stretches(g, 0.25L, 4, 0.05L, a); a[i2] = a[i1]; rotate = (st == ST_EQ2_ROT); break;
-    case ST_EQ3_AXES: case ST_EQ3_ROT: gen_stretches(g, 0.25L, 4, 0.05L, a); a[1] = a[2] = a[0]; rotate = (st == ST_EQ3_ROT); break;
+    case ST_EQ2_AXES: gen_stretches(g, 0.25L, 4, 0.05L, a); a[i2] = a[i1]; rotate = false; break;
+    case ST_EQ3_AXES: gen_stretches(g, 0.25L, 4, 0.05L, a); a[1] = a[2] = a[0]; rotate = false; break;
+    case ST_EQ2_ROT: gen_stretches(g, 0.25L, 1.5L, 0.05L, a); a[i2] = a[i1]; break;
+    case ST_EQ3_ROT: gen_stretches(g, 0.25L, 1.5L, 0.05L, a); a[1] = a[2] = a[0]; break;
+    case ST_EQ2_ROT_LARGE: gen_stretches(g, 2.5L, 5, 0.05L, a); a[i2] = a[i1]; break;
+    case ST_EQ3_ROT_LARGE: gen_stretches(g, 2.5L, 5, 0.05L, a); a[1] = a[2] = a[0]; break;
     default: {
-      gen_stretches(g, 0.25L, 4, 0.05L, a);
+      if (st == ST_NEAR0 + NNEAR - 1) gen_stretches(g, 0.25L, 1.5L, 0.05L, a);
+      else gen_stretches(g, 0.25L, 4, 0.05L, a);
       if (st == ST_NEAR0 + NNEAR) {  // three eigenvalues of C within a small distance
         const L d1 = g.logmag(-12, -2), d2 = g.logmag(-12, -2);
         a[1] = std::sqrt(a[0] * a[0] + d1); a[2] = std::sqrt(a[0] * a[0] - d2);
@@ -152,6 +161,8 @@ struct Case {
   TensorN Fd; M3 F, C; L J, vpmin, vpmax, gapC;  // gapC: smallest distance between eigenvalues of C that the library may see coalescing
 };
 
+static M3 fd_random_dir(vf::Rng& g) { const M3 d = random_gen(g, N); const L n = norm(d); return n > 0 ? scal(d, 1 / n) : fsr::gen_dir(0); }
+
 template <typename Fn>
 static bool throws(Fn&& f) { try { f(); } catch (std::exception&) { return true; } return false; }
 
@@ -189,13 +200,14 @@ static void one_case(const vf::Args& a, uint64_t idx) {
   const M3 Tr = from_st(Trd, N);
   auto dump = [&] {
     vf::J j;
-    j.i("N", N).s("law", iso ? "isotropic" : "anisotropic").arr("F", &c.Fd[0], &c.Fd[0] + nt).arr("T", &Trd[0], &Trd[0] + ns).arr("Ks", &Ksd(0, 0), &Ksd(0, 0) + ns * ns);
+    double ks[36]; for (int p = 0; p < ns; ++p) for (int q = 0; q < ns; ++q) ks[p * ns + q] = Ksd(p, q);
+    j.i("N", N).s("law", iso ? "isotropic" : "anisotropic").arr("F", &c.Fd[0], &c.Fd[0] + nt).arr("T", &Trd[0], &Trd[0] + ns).arr("Ks", ks, ks + ns * ns);
     j.d("gapC", c.gapC).d("vpmin", c.vpmin).d("vpmax", c.vpmax);
     return j.str();
   };
   char api[160];
-  auto nm = [&](const char* f, int setting) { std::snprintf(api, sizeof api, "%s<%d>[%s]", f, int(N), SETTING[setting]); vf::set_case(api, S, idx); return api; };
-  auto nm2 = [&](const char* f, int setting, const char* law) { std::snprintf(api, sizeof api, "%s<%d>[%s,%s]", f, int(N), SETTING[setting], law); vf::set_case(api, S, idx); return api; };
+  auto nm = [&](const char* f, int setting) { std::snprintf(api, sizeof api, "%s<%d>@%s", f, int(N), SETTING[setting]); vf::set_case(api, S, idx); return api; };
+  auto nm2 = [&](const char* f, int setting, const char* law) { std::snprintf(api, sizeof api, "%s<%d>@%s,%s", f, int(N), SETTING[setting], law); vf::set_case(api, S, idx); return api; };
 
   // references shared by both settings
   const M3 Elog = scal(fsr::logm(c.C), 0.5L);
@@ -206,6 +218,23 @@ static void one_case(const vf::Args& a, uint64_t idx) {
   // regularisation allowance: eigenvalues of C closer than the handler's eps = 1e-14 are treated as equal, which
   // changes dE_log/dC by at most eps * sup|d3 log| ~ eps / vpmin^3 (relative: eps / vpmin)
   const L REG = 1e-14L / c.vpmin;
+  // Conditioning accepted for the handler's algorithm (divided differences (e_i - e_j)/(vp_i - vp_j) between eigenvalues
+  // of C that are not merged by eps): 1 + vpmax/gap per order of divided difference, as for the isotropic-function
+  // derivative (C05): one order for the stress conversions, two for the tangent conversions.  The
+  // library sees eigenvalues that differ from the exact ones by a few ulps of vpmax: within that distance of eps the
+  // pair may or may not be merged.  The allowance is capped: at most CAP x |reference| (a conversion off by more than
+  // 1e-3 is not "equal" to the derivative whatever the conditioning), never below the well-conditioned allowance.
+  const L slack = 8 * EPS * c.vpmax;
+  const L kappa1 = (N == 1 || c.gapC + slack < 1e-14L) ? 1 : 1 + c.vpmax / std::max(c.gapC - slack, 1e-14L);
+  static constexpr L CAP = 1e-3L;
+  // order = 1: stress conversions (first divided differences); order = 2: tangent conversions (second ones)
+  auto allow = [&](L K, L scale, L refnorm, int order = 1) {
+    const L base = (K * EPS + REG) * scale;
+    return std::min(base * (order == 2 ? kappa1 * kappa1 : kappa1), std::max(CAP * refnorm, base));
+  };
+  // two evaluations of the library on inputs that differ by rounding (pointer overloads) are only compared where the
+  // conversions are well conditioned
+  const bool wellcond = kappa1 < 1e3L;
 
   for (int setting = 0; setting < 2; ++setting) {
     const auto hs = setting == 0 ? Handler::LAGRANGIAN : Handler::EULERIAN;
@@ -214,7 +243,7 @@ static void one_case(const vf::Args& a, uint64_t idx) {
     // ---- A. the Hencky strain --------------------------------------------------------------------------------
     {
       const StensorN e = hd.getHenckyLogarithmicStrain();
-      const L tolE = 64 * EPS * (norm(Elog) + condC);
+      const L tolE = 512 * EPS * (norm(Elog) + condC);
       if (setting == 0 || !strict_eulerian) R.check(nm("getHenckyLogarithmicStrain==1/2logC", setting), S, idx, h, dist(from_st(e, N), Elog), tolE, dump);
       else R.check(nm("getHenckyLogarithmicStrain==1/2logb", setting), S, idx, h, dist(from_st(e, N), fsr::elog_eulerian(c.F)), tolE, dump);
       if (setting == 1) {
@@ -227,14 +256,14 @@ static void one_case(const vf::Args& a, uint64_t idx) {
       hd.getHenckyLogarithmicStrain(tab);
       L d = 0;
       for (int k = 0; k < ns; ++k) d = std::max(d, std::fabs(L(tab[k]) - L(k < 3 ? e[k] : e[k] * double(SQ2))));
-      R.check(nm("getHenckyLogarithmicStrain(ptr)==object(engineering shear)", setting), S, idx, h, d, 4 * EPS * (norm(Elog) + 1), dump);
+      R.check(nm("getHenckyLogarithmicStrain(ptr)==object(engineering shear)", setting), S, idx, h, d, 32 * EPS * (norm(Elog) + 1), dump);
     }
     // ---- B. dual stress <-> second Piola-Kirchhoff stress (LAGRANGIAN only: documented to throw otherwise) -------
     if (setting == 0) {
       const StensorN Sl = hd.convertToSecondPiolaKirchhoffStress(Trd);
       const M3 Slm = from_st(Sl, N);
       const L scS = nT / c.vpmin * condC;
-      if (P.ok) R.check(nm("convertToSecondPiolaKirchhoffStress==T:dElog/dEgl", setting), S, idx, h, dist(Slm, Sr_ref), 50 * P.est * nT + (64 * EPS + REG) * scS, dump);
+      if (P.ok) R.check(nm("convertToSecondPiolaKirchhoffStress==T:dElog/dEgl", setting), S, idx, h, dist(Slm, Sr_ref), 50 * P.est * nT + allow(64, scS, norm(Sr_ref)), dump);
       else R.skip(nm("convertToSecondPiolaKirchhoffStress==T:dElog/dEgl", setting), S);
       // stress power along random rates of deformation gradient
       for (int r = 0; r < 2; ++r) {
@@ -244,18 +273,20 @@ static void one_case(const vf::Args& a, uint64_t idx) {
         if (!e.ok[0]) { R.skip(nm("stress-power T:dElog==S:dEgl", setting), S); continue; }
         const M3 Egl_dot = sym(mul(tr(c.F), Fdot));
         const L p1 = dot(Tr, e.d[0]), p2 = dot(Slm, Egl_dot);
-        R.check(nm("stress-power T:dElog==S:dEgl", setting), S, idx, h, std::fabs(p1 - p2), 50 * e.est[0] * nT + (64 * EPS + REG) * scS * norm(Egl_dot), dump);
+        R.check(nm("stress-power T:dElog==S:dEgl", setting), S, idx, h, std::fabs(p1 - p2), 50 * e.est[0] * nT + allow(64, scS, norm(Sr_ref)) * norm(Egl_dot), dump);
       }
       const StensorN Tb = hd.convertFromSecondPiolaKirchhoffStress(Sl);
-      R.check(nm("convertFromSecondPiolaKirchhoffStress(convertTo...)==T", setting), S, idx, h, dist(from_st(Tb, N), Tr), (256 * EPS + REG) * nT * condC * condC, dump);
+      R.check(nm("convertFromSecondPiolaKirchhoffStress(convertTo...)==T", setting), S, idx, h, dist(from_st(Tb, N), Tr), allow(1024, nT * condC * condC, nT), dump);
       // raw-pointer overloads
       real tab[6]; Trd.exportTab(tab);
       hd.convertToSecondPiolaKirchhoffStress(tab);
       StensorN Sp; Sp.importTab(tab);
-      R.check(nm("convertToSecondPiolaKirchhoffStress(ptr)==object", setting), S, idx, h, dist(from_st(Sp, N), Slm), 8 * EPS * norm(Slm), dump);
+      if (wellcond) R.check(nm("convertToSecondPiolaKirchhoffStress(ptr)==object", setting), S, idx, h, dist(from_st(Sp, N), Slm), 64 * EPS * scS, dump);
+      else R.skip(nm("convertToSecondPiolaKirchhoffStress(ptr)==object", setting), S);
       hd.convertFromSecondPiolaKirchhoffStress(tab);
       StensorN Tp; Tp.importTab(tab);
-      R.check(nm("convertFromSecondPiolaKirchhoffStress(ptr)==object", setting), S, idx, h, dist(from_st(Tp, N), from_st(Tb, N)), (64 * EPS) * nT * condC * condC, dump);
+      if (wellcond) R.check(nm("convertFromSecondPiolaKirchhoffStress(ptr)==object", setting), S, idx, h, dist(from_st(Tp, N), from_st(Tb, N)), (256 * EPS) * nT * condC * condC, dump);
+      else R.skip(nm("convertFromSecondPiolaKirchhoffStress(ptr)==object", setting), S);
     } else if (N > 1) {
       R.expect(nm("convertToSecondPiolaKirchhoffStress throws", setting), S, idx, h, throws([&] { (void)hd.convertToSecondPiolaKirchhoffStress(Trd); }), dump);
       R.expect(nm("convertFromSecondPiolaKirchhoffStress throws", setting), S, idx, h, throws([&] { (void)hd.convertFromSecondPiolaKirchhoffStress(Trd); }), dump);
@@ -265,17 +296,19 @@ static void one_case(const vf::Args& a, uint64_t idx) {
     {
       const StensorN sl = hd.convertToCauchyStress(Trd);
       const L scs = nT * condC * condC * A_ * A_ / (c.J * c.vpmax);
-      if (P.ok) R.check(nm("convertToCauchyStress==F.S.F^T/J", setting), S, idx, h, dist(from_st(sl, N), sig_ref), 50 * P.est * nT * A_ * A_ / c.J + (64 * EPS + REG) * scs, dump);
+      if (P.ok) R.check(nm("convertToCauchyStress==F.S.F^T/J", setting), S, idx, h, dist(from_st(sl, N), sig_ref), 50 * P.est * nT * A_ * A_ / c.J + allow(64, scs, norm(sig_ref)), dump);
       else R.skip(nm("convertToCauchyStress==F.S.F^T/J", setting), S);
       const StensorN Tb = hd.convertFromCauchyStress(sl);
-      R.check(nm("convertFromCauchyStress(convertTo...)==T", setting), S, idx, h, dist(from_st(Tb, N), Tr), (256 * EPS + REG) * nT * condC * condC * condC, dump);
+      R.check(nm("convertFromCauchyStress(convertTo...)==T", setting), S, idx, h, dist(from_st(Tb, N), Tr), allow(1024, nT * condC * condC * condC, nT), dump);
       real tab[6]; Trd.exportTab(tab);
       hd.convertToCauchyStress(tab);
       StensorN sp; sp.importTab(tab);
-      R.check(nm("convertToCauchyStress(ptr)==object", setting), S, idx, h, dist(from_st(sp, N), from_st(sl, N)), 8 * EPS * norm(from_st(sl, N)), dump);
+      if (wellcond) R.check(nm("convertToCauchyStress(ptr)==object", setting), S, idx, h, dist(from_st(sp, N), from_st(sl, N)), 64 * EPS * scs, dump);
+      else R.skip(nm("convertToCauchyStress(ptr)==object", setting), S);
       hd.convertFromCauchyStress(tab);
       StensorN Tp; Tp.importTab(tab);
-      R.check(nm("convertFromCauchyStress(ptr)==object", setting), S, idx, h, dist(from_st(Tp, N), from_st(Tb, N)), (64 * EPS) * nT * condC * condC * condC, dump);
+      if (wellcond) R.check(nm("convertFromCauchyStress(ptr)==object", setting), S, idx, h, dist(from_st(Tp, N), from_st(Tb, N)), (256 * EPS) * nT * condC * condC * condC, dump);
+      else R.skip(nm("convertFromCauchyStress(ptr)==object", setting), S);
     }
   }
 
@@ -326,18 +359,24 @@ static void one_case(const vf::Args& a, uint64_t idx) {
       const auto hs = setting == 0 ? Handler::LAGRANGIAN : Handler::EULERIAN;
       const Handler hd(hs, c.Fd);
       if (!dS.ok || !P.ok) { R.skip(nm2("tangent-conversions", setting, law), S); continue; }
+      if (a.get("--debug", "0") == "1" && setting == 0) {
+        const KM k = km_of(hd.convertToMaterialTangentModuli(Ksd, Td));
+        std::printf("DEBUG case %llu %s law=%s gapC=%Lg vp=[%Lg,%Lg] |dS_ref|=%Lg |dS_lib|=%Lg err=%Lg est=%Lg P.est=%Lg\n", (unsigned long long)idx, S, law,
+                    c.gapC, c.vpmin, c.vpmax, dS.norm(), k.norm(), fsr::km_dist(k, dS), dS.est, P.est);
+        for (int p = 0; p < ns; ++p) { for (int q = 0; q < ns; ++q) std::printf(" %12.5Lg/%-12.5Lg", k.a[p][q], dS.a[p][q]); std::printf("\n"); }
+      }
       if (setting == 0) {
         const KM k = km_of(hd.convertToMaterialTangentModuli(Ksd, Td));
-        R.check(nm2("convertToMaterialTangentModuli==dS/dEgl", setting, law), S, idx, h, fsr::km_dist(k, dS), 50 * dS.est + (256 * EPS + REG) * sc_mat, dump);
+        R.check(nm2("convertToMaterialTangentModuli==dS/dEgl", setting, law), S, idx, h, fsr::km_dist(k, dS), 50 * dS.est + allow(256, sc_mat, dS.norm(), 2), dump);
       }
       {
         const KM k = km_of(hd.convertToSpatialTangentModuli(Ksd, Td));
-        R.check(nm2("convertToSpatialTangentModuli==push_forward(dS/dEgl)", setting, law), S, idx, h, fsr::km_dist(k, cs), 50 * est_sp + (256 * EPS + REG) * sc_sp, dump);
+        R.check(nm2("convertToSpatialTangentModuli==push_forward(dS/dEgl)", setting, law), S, idx, h, fsr::km_dist(k, cs), 50 * est_sp + allow(256, sc_sp, cs.norm(), 2), dump);
       }
       {
         const ST2 kt = hd.convertToCauchyStressTruesdellRateTangentModuli(Ksd, Td);
         KM r = cs; for (auto& row : r.a) for (L& x : row) x /= c.J;
-        R.check(nm2("convertToCauchyStressTruesdellRateTangentModuli==spatial/J", setting, law), S, idx, h, fsr::km_dist(km_of(kt), r), (50 * est_sp + (256 * EPS + REG) * sc_sp) / c.J, dump);
+        R.check(nm2("convertToCauchyStressTruesdellRateTangentModuli==spatial/J", setting, law), S, idx, h, fsr::km_dist(km_of(kt), r), (50 * est_sp + allow(256, sc_sp, cs.norm(), 2)) / c.J, dump);
         // raw-pointer overload: column-major Voigt matrix (Abaqus/Standard DDSDDE) and stress in Voigt notation
         real K[36], Tt[6];
         for (int p = 0; p < ns; ++p) for (int q = 0; q < ns; ++q) K[p + ns * q] = Ksd(p, q) / ((p >= 3 ? double(SQ2) : 1.0) * (q >= 3 ? double(SQ2) : 1.0));
@@ -348,24 +387,29 @@ static void one_case(const vf::Args& a, uint64_t idx) {
           const L v = L(K[p + ns * q]) * ((p >= 3 ? SQ2 : 1) * (q >= 3 ? SQ2 : 1));
           d = std::max(d, std::fabs(v - L(kt(p, q)))); sc = std::max(sc, std::fabs(L(kt(p, q))));
         }
-        R.check(nm2("convertToCauchyStressTruesdellRateTangentModuli(ptr)==object", setting, law), S, idx, h, d, 64 * EPS * (sc + sc_sp / c.J), dump);
+        if (wellcond) R.check(nm2("convertToCauchyStressTruesdellRateTangentModuli(ptr)==object", setting, law), S, idx, h, d, 64 * EPS * (sc + sc_sp / c.J), dump);
+        else R.skip(nm2("convertToCauchyStressTruesdellRateTangentModuli(ptr)==object", setting, law), S);
       }
-      if constexpr (N > 1) {
-        const ST2 ka = hd.convertToAbaqusTangentModuli(Ksd, Td);
+      // convertToAbaqusTangentModuli does not exist in 1D
+      [&](const auto& hh) {
+        if constexpr (requires { hh.convertToAbaqusTangentModuli(Ksd, Td); }) {
+        const ST2 ka = hh.convertToAbaqusTangentModuli(Ksd, Td);
         KM r = cj; for (auto& row : r.a) for (L& x : row) x /= c.J;
         R.check(nm2("convertToAbaqusTangentModuli==JaumannModuli(tau)/J", setting, law), S, idx, h, fsr::km_dist(km_of(ka), r),
-                (50 * est_sp + (256 * EPS + REG) * (sc_sp + norm(tau))) / c.J, dump);
+                (50 * est_sp + allow(256, sc_sp + norm(tau), cj.norm(), 2)) / c.J, dump);
         real K[36], Tt[6];
         for (int p = 0; p < ns; ++p) for (int q = 0; q < ns; ++q) K[p + ns * q] = Ksd(p, q) / ((p >= 3 ? double(SQ2) : 1.0) * (q >= 3 ? double(SQ2) : 1.0));
         Td.exportTab(Tt);
-        hd.convertToAbaqusTangentModuli(K, Tt);
+        hh.convertToAbaqusTangentModuli(K, Tt);
         L d = 0, sc = 0;
         for (int p = 0; p < ns; ++p) for (int q = 0; q < ns; ++q) {
           const L v = L(K[p + ns * q]) * ((p >= 3 ? SQ2 : 1) * (q >= 3 ? SQ2 : 1));
           d = std::max(d, std::fabs(v - L(ka(p, q)))); sc = std::max(sc, std::fabs(L(ka(p, q))));
         }
-        R.check(nm2("convertToAbaqusTangentModuli(ptr)==object", setting, law), S, idx, h, d, 64 * EPS * (sc + sc_sp / c.J), dump);
-      }
+        if (wellcond) R.check(nm2("convertToAbaqusTangentModuli(ptr)==object", setting, law), S, idx, h, d, 64 * EPS * (sc + sc_sp / c.J), dump);
+        else R.skip(nm2("convertToAbaqusTangentModuli(ptr)==object", setting, law), S);
+              }
+      }(hd);
     }
   }
 }
